@@ -213,99 +213,13 @@ pub fn real_stream(bytes: &[u8], toks: &mut Toks) -> Result<Vec<u64>, String> {
     Ok(out)
 }
 
-/// How `encode_comp` + wrappers.rs re-encode one component-type item, expressed as wasm-encoder's own
-/// RoundtripReencoder with exactly the deviating arms overridden:
-///  * 28: wrappers.rs::convert_component_type -- applied to the types *declared inside* component / instance
-///        types -- encodes `Stream(None)` with `def_enc.future(None)`;
-///  * 29: wrappers.rs::convert_instance_type (every instance type) and convert_component_type's Component arm
-///        (component types that are themselves nested) re-encode the members of a core rec group one by one
-///        (`for sub in recgroup.types() { encode_core_type_subtype(..) }`), so an *explicit* rec group comes back
-///        as separate types.
-/// The quirks that fired are recorded.  For every component-type item (at any depth) on which one fires, the
-/// case carries (token of the item, token of the re-encoded item, class) -- only if the plain RoundtripReencoder
-/// reproduces the item's original bytes, so that tokens of both encodings are comparable.
-struct Quirks { on: bool, depth: u32, fired: Vec<u64> }
-impl wasm_encoder::reencode::Reencode for Quirks { type Error = std::convert::Infallible; }
-impl wasm_encoder::reencode::ReencodeComponent for Quirks {
-    fn push_depth(&mut self) { self.depth += 1; }
-    fn pop_depth(&mut self) { self.depth -= 1; }
-    fn parse_component_defined_type(&mut self, defined: wasm_encoder::ComponentDefinedTypeEncoder<'_>, ty: wasmparser::ComponentDefinedType<'_>) -> Result<(), wasm_encoder::reencode::Error<Self::Error>> {
-        if self.on && self.depth > 0 {
-            if let wasmparser::ComponentDefinedType::Stream(None) = ty {
-                if !self.fired.contains(&28) { self.fired.push(28); }
-                defined.future(None);
-                return Ok(());
-            }
-        }
-        wasm_encoder::reencode::component_utils::parse_component_defined_type(self, defined, ty)
-    }
-    fn parse_component_instance_type_declaration(&mut self, ity: &mut wasm_encoder::InstanceType, decl: wasmparser::InstanceTypeDeclaration<'_>) -> Result<(), wasm_encoder::reencode::Error<Self::Error>> {
-        use wasm_encoder::reencode::Reencode;
-        if self.on {
-            if let wasmparser::InstanceTypeDeclaration::CoreType(wasmparser::CoreType::Rec(g)) = &decl {
-                if g.is_explicit_rec_group() {
-                    if !self.fired.contains(&29) { self.fired.push(29); }
-                    for sub in g.types() { let st = self.sub_type(sub.clone())?; ity.core_type().core().subtype(&st); }
-                    return Ok(());
-                }
-            }
-        }
-        wasm_encoder::reencode::component_utils::parse_component_instance_type_declaration(self, ity, decl)
-    }
-    fn parse_component_type_declaration(&mut self, cty: &mut wasm_encoder::ComponentType, decl: wasmparser::ComponentTypeDeclaration<'_>) -> Result<(), wasm_encoder::reencode::Error<Self::Error>> {
-        use wasm_encoder::reencode::Reencode;
-        if self.on && self.depth >= 2 {
-            if let wasmparser::ComponentTypeDeclaration::CoreType(wasmparser::CoreType::Rec(g)) = &decl {
-                if g.is_explicit_rec_group() {
-                    if !self.fired.contains(&29) { self.fired.push(29); }
-                    for sub in g.types() { let st = self.sub_type(sub.clone())?; cty.core_type().core().subtype(&st); }
-                    return Ok(());
-                }
-            }
-        }
-        wasm_encoder::reencode::component_utils::parse_component_type_declaration(self, cty, decl)
-    }
-}
-fn reencode_type_item(ty: wasmparser::ComponentType, q: &mut Quirks) -> Option<Vec<u8>> {
-    use wasm_encoder::reencode::ReencodeComponent;
-    let mut sec = wasm_encoder::ComponentTypeSection::new();
-    q.parse_component_type(sec.ty(), ty).ok()?;
-    let mut c = wasm_encoder::Component::new();
-    c.section(&sec);
-    let bytes = c.finish();
-    for p in Parser::new(0).parse_all(&bytes) {
-        if let Ok(Payload::ComponentTypeSection(r)) = p {
-            let end = r.range().end;
-            let (o, _) = r.into_iter_with_offsets().next()?.ok()?;
-            return Some(bytes[o..end].to_vec());
-        }
-    }
-    None
-}
-/// (item token, re-encoded item token) for the model, (item token, class) for the classifier
-pub fn collect_sf(bytes: &[u8], toks: &mut Toks) -> (Vec<(u64, u64)>, Vec<(u64, u64)>) {
-    let mut sf: Vec<(u64, u64)> = vec![];
-    let mut cls: Vec<(u64, u64)> = vec![];
-    for p in Parser::new(0).parse_all(bytes) {
-        if let Ok(Payload::ComponentTypeSection(r)) = p {
-            let end = r.range().end;
-            let mut its = vec![];
-            for it in r.into_iter_with_offsets() { match it { Ok(x) => its.push(x), Err(_) => return (sf, cls) } }
-            for i in 0..its.len() {
-                let raw = &bytes[its[i].0..if i + 1 < its.len() { its[i + 1].0 } else { end }];
-                let mut q = Quirks { on: true, depth: 0, fired: vec![] };
-                let edited = match reencode_type_item(its[i].1.clone(), &mut q) { Some(e) => e, None => continue };
-                if q.fired.is_empty() { continue; }
-                let mut plain = Quirks { on: false, depth: 0, fired: vec![] };
-                if reencode_type_item(its[i].1.clone(), &mut plain).as_deref() != Some(raw) { continue; }
-                let a = toks.get(12, raw);
-                let b = toks.get(12, &edited);
-                if a != b && !sf.contains(&(a, b)) { sf.push((a, b)); }
-                if a != b { for k in q.fired { if !cls.contains(&(a, k)) { cls.push((a, k)); } } }
-            }
-        }
-    }
-    (sf, cls)
+/// The table [sf] of the model (token of a component-type item |-> token of the item as wrappers.rs re-encodes it)
+/// described two deviations of wrappers.rs from wasm-encoder's RoundtripReencoder: D28 (a payload-less `stream`
+/// declared inside a type declaration came back as `future`) and D29 (an explicit core rec group inside an instance
+/// type / nested component type came back as separate types).  Both are repaired in /repo ("fix:" commits), so the
+/// table is empty: the model re-encodes every item to itself, and any deviation of the real output is a mismatch.
+pub fn collect_sf(_bytes: &[u8], _toks: &mut Toks) -> (Vec<(u64, u64)>, Vec<(u64, u64)>) {
+    (vec![], vec![])
 }
 
 pub fn coq_nodes(v: &[Node], keep_customs: bool) -> String {
